@@ -92,6 +92,41 @@ func specC05(tier string) *SeqSpec {
 		s.Depth = 2
 	}
 	s.Long = dictHistories("SADD", "SREM", "k1", false, tier)
+	// the same fill / drain histories with the algebra commands asked along the way: the operand has
+	// a table that has grown and carries a removal history (a worker that removes while it iterates
+	// would shrink the table under its own feet)
+	hs := dictHistories("SADD", "SREM", "k1", false, tier)
+	for hi, h := range hs {
+		var g []Op
+		// the second operand: a third of the fill names, every name of the churn histories that is not a
+		// temporary one (so that what survives in k1 is common to both), and enough others to be the larger set
+		other := []string{"SADD", "k2"}
+		for i := 0; i < 200; i += 3 {
+			other = append(other, "f"+itoa(i))
+		}
+		seen := map[string]bool{}
+		for _, o := range h {
+			if n := o.Args[len(o.Args)-1]; o.Args[0] == "SADD" && !seen[n] && (n[0] == 'a' || n[0] == 'b' || n[0] == 'c') {
+				seen[n] = true
+				other = append(other, n)
+			}
+		}
+		for i := 0; i < 40; i++ {
+			other = append(other, "zz"+itoa(i))
+		}
+		g = append(g, Op{Args: other})
+		every := 9
+		if hi >= len(hs)-6 {
+			every = 1 // the churn histories: every state of the removal counter is a starting point
+		}
+		for i, o := range h {
+			g = append(g, o)
+			if i%every == every-1 {
+				g = append(g, c("SDIFF", "k1", "k2"), c("SINTER", "k1", "k2"), c("SDIFF", "k2", "k1"), c("SDIFFSTORE", "k3", "k1", "k2"), c("SINTERSTORE", "k3", "k2", "k1"), c("SUNIONSTORE", "k3", "k1", "k2"), c("SINTERCARD", "2", "k1", "k2"))
+			}
+		}
+		s.Long = append(s.Long, g)
+	}
 	return s
 }
 
@@ -134,6 +169,9 @@ func specC04(tier string) *SeqSpec {
 	}
 	S = append(S, c("HINCRBY", "h1", "f", "abc"), c("HINCRBY", "h1", "f", "1.5"), c("HINCRBYFLOAT", "h1", "f", "abc"), c("HINCRBYFLOAT", "h1", "g", "1"), c("HINCRBYFLOAT", "h1", "n", "0.5"),
 		c("HINCRBYFLOAT", "nokey", "f", "3"), c("HINCRBYFLOAT", "h1", "q", "0.25"),
+		// increments that must be refused and leave nothing behind: on a missing key, a missing field, an existing field
+		c("HINCRBYFLOAT", "nokey", "f", "inf"), c("HINCRBYFLOAT", "nokey", "f", "-inf"), c("HINCRBYFLOAT", "nokey", "f", "nan"), c("HINCRBYFLOAT", "nokey", "f", "abc"), c("HINCRBYFLOAT", "h1", "newf", "inf"), c("HINCRBYFLOAT", "h1", "f", "inf"), c("HINCRBYFLOAT", "h1", "f", "1e400"),
+		c("HINCRBY", "nokey", "f", "abc"), c("HINCRBY", "nokey", "f", "1.5"), c("HINCRBY", "h1", "newf", "abc"), c("HINCRBY", "nokey", "f", "9223372036854775808"), c("HSETNX", "nokey", "f"), c("HSET", "nokey", "f"), c("HSET", "nokey", "f", "v", "g"),
 		c("HSET", "w1", "f", "x"), c("HSETNX", "w1", "f", "x"), c("HMSET", "w1", "f", "x"), c("HDEL", "w1", "f"), c("HINCRBY", "w1", "f", "1"), c("HINCRBYFLOAT", "w1", "f", "1"),
 		c("HSET", "h1", "f"), c("HSET", "h1", "f", "x", "g"), c("HMSET", "h1", "f", "x", "g"), c("HSETNX", "nokey", "f", "x"), c("HSETNX", "h1", "q", "z"))
 	s.Sweep = S
